@@ -557,6 +557,7 @@ func checkActionErrors(r *Run, prog *Program, pfx string) {
 		n++
 		ps := NewPathSim(prog)
 		ps.maxVisits = 2
+		ps.Inline = func(c *ssa.Function) bool { return prog.InModule(c) && !recursive(prog, c) } // node constructors the action is split into
 		for _, sm := range ps.Run(fn) {
 			if sm.Ret == nil || len(sm.Results) != 2 {
 				continue
